@@ -420,16 +420,31 @@ func init() {
 						}
 						key := fnName(est) + "/" + f.Name() + "." + ci.Common().StaticCallee().Name()
 						dom := false
+						mayBeNil := ""
+						nn := c.nilNilFuncs()
 						for _, b2 := range est.Blocks {
 							for _, i2 := range b2.Instrs {
 								if st, ok := i2.(*ssa.Store); ok {
 									if fa2, ok := st.Addr.(*ssa.FieldAddr); ok && fa2.Field == fa.Field && fa2.X == fa.X {
 										if b2 == b && instrIndex(st) < instrIndex(ins) || b2 != b && b2.Dominates(b) {
 											dom = true
+											// established with the result of an in-package function that can return
+											// (nil, nil) — e.g. "this field has no dictionary" — and not nil-tested since
+											if ex, ok := st.Val.(*ssa.Extract); ok {
+												if call, ok := ex.Tuple.(*ssa.Call); ok && call.Call.StaticCallee() != nil {
+													if _, may := nn[call.Call.StaticCallee()]; may && !knownNonNilAt(ex, b) && !knownNonNilAt(ld, b) {
+														mayBeNil = fnName(call.Call.StaticCallee())
+													}
+												}
+											}
 										}
 									}
 								}
 							}
+						}
+						if dom && mayBeNil != "" {
+							r.bad(key, fnName(est), c.pos(ins.Pos()), "."+f.Name()+" was just assigned the result of "+mayBeNil+", which returns (nil, nil) on some path (a field without a dictionary), and "+ci.Common().StaticCallee().Name()+"() is called on it without a nil test")
+							continue
 						}
 						if dom {
 							r.ok(key, fnName(est), c.pos(ins.Pos()), "executed only where ."+f.Name()+" was just established")
